@@ -74,8 +74,9 @@ def compare_projected(scen, impl_out, model_out, projectfn):
         return None
     m, i = projectfn(model_out.get('out')), projectfn(impl_out)
     cm, ci = canon(m), canon(i)
-    if scen['op'] == 'roundtrip' and has_set_type(scen):
-        cm, ci = sort_lists_in(cm, ('d', 'd2')), sort_lists_in(ci, ('d', 'd2'))
+    if scen['op'] in ('roundtrip', 'convert2') and has_set_type(scen):
+        # serialised sets come out in hash order (also inside the `actual` of error trees): compare up to list order
+        cm, ci = sort_lists(cm), sort_lists(ci)
     if scen['op'] == 'dictview' and scen.get('set_only'):
         # dict(set_only=True) iterates a set of names: item order is hash order
         srt = lambda o: {'ok': {'d': sorted(o['ok']['d'], key=lambda kv: json.dumps(kv))}} if isinstance(o, dict) and isinstance(o.get('ok'), dict) and 'd' in o['ok'] else o
